@@ -1,6 +1,7 @@
 package main
 
 import (
+	"sort"
 	"fmt"
 	"go/constant"
 	"go/token"
@@ -72,6 +73,32 @@ func (fc *FCtx) resolveSpecType(name string, pkg *packages.Package) (*Sort, type
 	}
 	if fc.E.cs.OpaqueSorts[name] {
 		return fc.U.opaque(name), nil
+	}
+	if pkg == nil {
+		// shared spec files have no package: resolve the type in any loaded package that knows it
+		var paths []string
+		for p := range fc.E.pkgs {
+			paths = append(paths, p)
+		}
+		sort.Strings(paths)
+		for _, p := range paths {
+			var s *Sort
+			var t types.Type
+			func() {
+				defer func() {
+					if r := recover(); r != nil {
+						if _, ok := r.(OutOfSubset); !ok {
+							panic(r)
+						}
+					}
+				}()
+				s, t = fc.resolveSpecType(name, fc.E.pkgs[p])
+			}()
+			if s != nil {
+				return s, t
+			}
+		}
+		oos("spec: cannot resolve type %q in any loaded package", name)
 	}
 	tv, err := types.Eval(fc.E.fset, pkg.Types, token.NoPos, name)
 	if err != nil {
